@@ -13,8 +13,8 @@ import (
 
 type oracleOut struct {
 	std, mso, vis, skel string
-	seen, hidden       []string
-	body               string
+	seen, hidden        []string
+	body                string
 }
 
 func parseOracle(line string) (oracleOut, error) {
@@ -458,7 +458,9 @@ func blockAlphabet() []LBlock {
 		}
 		return LBlock{K: "section", Sec: s}
 	}
-	wr := func(fw, bgc bool, kids ...LWChild) LBlock { return LBlock{K: "wrapper", WFw: fw, WBgc: bgc, WKids: kids} }
+	wr := func(fw, bgc bool, kids ...LWChild) LBlock {
+		return LBlock{K: "wrapper", WFw: fw, WBgc: bgc, WKids: kids}
+	}
 	plain := func() *LSection { return &LSection{Kids: []LSChild{colText()}} }
 	return []LBlock{
 		sec(nil),
@@ -485,7 +487,9 @@ func blockAlphabet() []LBlock {
 }
 
 func wrapperChildAlphabet() []LWChild {
-	s := func(fw, bg, bgc bool) LWChild { return LWChild{Sec: &LSection{Fw: fw, Bg: bg, Bgc: bgc, Kids: []LSChild{colText()}}} }
+	s := func(fw, bg, bgc bool) LWChild {
+		return LWChild{Sec: &LSection{Fw: fw, Bg: bg, Bgc: bgc, Kids: []LSChild{colText()}}}
+	}
 	return []LWChild{s(false, false, false), s(false, false, true), s(true, false, false), s(true, false, true), s(false, true, false), s(true, true, false), {}, {Blank: true}}
 }
 
